@@ -142,4 +142,496 @@ theorem cnfNew_normal (cs : Cnf) : CnfNormal (cnfNew cs) := by
   obtain ⟨c0, _, rfl⟩ := List.mem_map.mp hc
   exact ⟨(isort_pairwise c0).sublist (dedupAdj_sublist _), dedupAdj_noAdjDup _⟩
 
+/-! ## the two-watch structure -/
+
+structure TwoWatch (cnf : Cnf) (wl : WL) : Prop where
+  /-- no list has a repeated entry -/
+  nodup : ∀ p v, (wl.get p v).Nodup
+  /-- a clause with at least two literals is watched by exactly two different literals of it -/
+  two : ∀ i, i < cnf.length → 2 ≤ (cnf.getD i []).length →
+    ∃ w1 w2, w1 ≠ w2 ∧ w1 ∈ cnf.getD i [] ∧ w2 ∈ cnf.getD i [] ∧
+      ∀ w, Watches wl i w ↔ (w = w1 ∨ w = w2)
+  /-- nothing else is watched -/
+  only : ∀ i w, Watches wl i w → i < cnf.length ∧ 2 ≤ (cnf.getD i []).length
+
+theorem lit_ext {w l : Lit} (hp : w.pol = l.pol) (hv : w.var = l.var) : w = l := by
+  cases w; cases l; simp_all
+
+theorem nodup_getElem_inj {l : List Nat} (h : l.Nodup) {i j : Nat} (hi : i < l.length)
+    (hj : j < l.length) (e : l[i] = l[j]) : i = j := by
+  rw [List.nodup_iff_pairwise_ne, List.pairwise_iff_getElem] at h
+  rcases Nat.lt_trichotomy i j with hlt | heq | hgt
+  · exact absurd e (h i j hi hj hlt)
+  · exact heq
+  · exact absurd e.symm (h j i hj hi hgt)
+
+theorem mem_swapRemove_iff {xs : List Nat} (hnd : xs.Nodup) {k : Nat} (hk : k < xs.length) (i : Nat) :
+    i ∈ swapRemove xs k ↔ i ∈ xs ∧ i ≠ xs.getD k 0 := by
+  rw [(swapRemove_perm xs k hk).mem_iff, List.mem_eraseIdx_iff_getElem,
+    List.getD_eq_getElem?_getD, List.getElem?_eq_getElem hk]
+  simp only [Option.getD_some]
+  constructor
+  · rintro ⟨j, hj, hne, e⟩
+    refine ⟨e ▸ List.getElem_mem hj, ?_⟩
+    intro e2
+    exact hne (nodup_getElem_inj hnd hj hk (by rw [e, e2]))
+  · rintro ⟨hm, hne⟩
+    obtain ⟨j, hj, e⟩ := List.mem_iff_getElem.mp hm
+    exact ⟨j, hj, fun e2 => hne (by subst e2; exact e.symm), e⟩
+
+section move
+variable {cnf : Cnf} {wl : WL} {l nl : Lit} {idx : Nat}
+
+theorem watches_move_new (hne : nl.var ≠ l.var) (i : Nat) :
+    Watches (moveWatch wl l idx nl) i nl ↔ Watches wl i nl ∨ i = curIdx wl l idx := by
+  unfold Watches moveWatch
+  rw [WL.get_push, if_pos ⟨rfl, rfl⟩, List.mem_append, WL.get_upd, if_neg (fun e => hne e.2)]
+  simp
+
+theorem watches_move_old (hne : nl.var ≠ l.var) (hnd : (wl.get (!l.pol) l.var).Nodup)
+    (hlt : idx < (wl.get (!l.pol) l.var).length) (i : Nat) :
+    Watches (moveWatch wl l idx nl) i l.neg ↔ Watches wl i l.neg ∧ i ≠ curIdx wl l idx := by
+  unfold Watches
+  rw [lneg_pol, lneg_var, moveWatch_get_self hne, mem_swapRemove_iff hnd hlt]
+  rfl
+
+theorem watches_move_other {w : Lit} (h1 : w ≠ nl) (h2 : w ≠ l.neg) (i : Nat) :
+    Watches (moveWatch wl l idx nl) i w ↔ Watches wl i w := by
+  unfold Watches
+  rw [moveWatch_get_other (fun e => h2 (lit_eq_neg e.2 e.1)) (fun e => h1 (lit_ext e.1 e.2))]
+
+end move
+
+/-- one watch replacement of the repaired code keeps the two-watch structure -/
+theorem TwoWatch.move {cnf : Cnf} {wl : WL} {m : PModel} {l : Lit} {idx : Nat}
+    {cand second : Lit} {rest : List Lit}
+    (hN : CnfNormal cnf) (h2 : TwoWatch cnf wl) (hl : m l.var = some l.pol)
+    (hlt : idx < (wl.get (!l.pol) l.var).length)
+    (hf : (curClause cnf wl l idx).filter (litUnset m) = cand :: second :: rest) :
+    TwoWatch cnf (moveWatch wl l idx (pickWatch true wl l (curIdx wl l idx) cand second)) := by
+  -- abbreviations
+  generalize hci : curIdx wl l idx = ci at *
+  have hcl : curClause cnf wl l idx = cnf.getD ci [] := by rw [← hci]; rfl
+  have F0 : Watches wl ci l.neg := by rw [← hci]; exact curIdx_mem hlt
+  have F1 := h2.only ci _ F0
+  obtain ⟨w1, w2, hw12, hw1m, hw2m, hiff⟩ := h2.two ci F1.1 F1.2
+  -- the other watch
+  have hother : ∃ wo, wo ≠ l.neg ∧ wo ∈ cnf.getD ci [] ∧ ∀ w, Watches wl ci w ↔ (w = l.neg ∨ w = wo) := by
+    rcases (hiff _).mp F0 with e | e
+    · exact ⟨w2, by rw [e]; exact fun h => hw12 h.symm, hw2m, by intro w; rw [e]; exact hiff w⟩
+    · refine ⟨w1, by rw [e]; exact hw12, hw1m, ?_⟩
+      intro w; rw [e, hiff w]; exact Or.comm
+  obtain ⟨wo, hwo, hwom, hiffo⟩ := hother
+  have hcandU := mem_filter_unset hf
+  have hnorm : NormalClause (curClause cnf wl l idx) := hN _ (curClause_mem (fun p v i h => (h2.only i ⟨v, p⟩ h).1) hlt)
+  have hcs : cand ≠ second := first_two_ne m _ _ _ _ hnorm hf
+  have hsecU : m second.var = none := by
+    have : second ∈ (curClause cnf wl l idx).filter (litUnset m) := by rw [hf]; simp
+    exact litUnset_iff.mp (List.mem_filter.mp this).2
+  have hnotneg : ∀ w : Lit, m w.var = none → w ≠ l.neg := by
+    intro w hw e; rw [e, lneg_var, hl] at hw; cases hw
+  generalize hnl : pickWatch true wl l ci cand second = nl
+  have hnlU := pickWatch_unset (rep := true) (wl := wl) (l := l) (ci := ci) hf
+  rw [hnl, hcl] at hnlU
+  have hne : nl.var ≠ l.var := by intro e; rw [e, hl] at hnlU; cases hnlU.1
+  -- the new literal is not yet watched by the clause
+  have F5 : ¬ Watches wl ci nl := by
+    unfold pickWatch at hnl
+    simp only [if_true] at hnl
+    by_cases hc : ci ∈ wl.get cand.pol cand.var
+    · have hcw : Watches wl ci cand := hc
+      have e1 : cand = wo := ((hiffo _).mp hcw).resolve_left (hnotneg _ hcandU)
+      simp only [List.contains_iff_mem, hc, if_true] at hnl
+      subst hnl
+      intro hw
+      have e2 : second = wo := ((hiffo _).mp hw).resolve_left (hnotneg _ hsecU)
+      exact hcs (e1.trans e2.symm)
+    · simp only [List.contains_iff_mem, hc] at hnl
+      simp at hnl
+      subst hnl
+      exact hc
+  have hnlwo : nl ≠ wo := fun e => F5 ((hiffo _).mpr (.inr e))
+  have hnlneg : nl ≠ l.neg := hnotneg _ hnlU.1
+  have hnd := h2.nodup (!l.pol) l.var
+  refine ⟨?_, ?_, ?_⟩
+  · -- nodup
+    intro p v
+    by_cases e1 : p = nl.pol ∧ v = nl.var
+    · have : (moveWatch wl l idx nl).get p v = wl.get nl.pol nl.var ++ [ci] := by
+        unfold moveWatch
+        rw [WL.get_push, if_pos e1, WL.get_upd, if_neg (fun e => hne (e1.2 ▸ e.2)), e1.1, e1.2, hci]
+      rw [this, List.nodup_append]
+      refine ⟨h2.nodup _ _, by simp, ?_⟩
+      intro a ha b hb
+      have : b = ci := by simpa using hb
+      subst this
+      intro e; subst e; exact F5 ha
+    · by_cases e2 : p = (!l.pol) ∧ v = l.var
+      · rw [e2.1, e2.2, moveWatch_get_self hne, (swapRemove_perm _ _ hlt).nodup_iff]
+        exact hnd.sublist (List.eraseIdx_sublist _ _)
+      · rw [moveWatch_get_other e2 e1]; exact h2.nodup _ _
+  · -- two
+    intro i hi hlen
+    by_cases hic : i = ci
+    · subst hic
+      refine ⟨wo, nl, fun e => hnlwo e.symm, hwom, hnlU.2, ?_⟩
+      intro w
+      by_cases e1 : w = nl
+      · subst e1; rw [watches_move_new hne, hci]; simp
+      · by_cases e2 : w = l.neg
+        · subst e2
+          rw [watches_move_old hne hnd hlt, hci]
+          constructor
+          · intro h; exact absurd rfl h.2
+          · rintro (h | h)
+            · exact absurd h.symm hwo
+            · exact absurd h.symm hnlneg
+        · rw [watches_move_other e1 e2, hiffo]
+          constructor
+          · rintro (h | h)
+            · exact absurd h e2
+            · exact .inl h
+          · rintro (h | h)
+            · exact .inr h
+            · exact absurd h e1
+    · obtain ⟨u1, u2, hu12, hu1m, hu2m, hiffu⟩ := h2.two i hi hlen
+      refine ⟨u1, u2, hu12, hu1m, hu2m, ?_⟩
+      intro w
+      rw [← hiffu w]
+      by_cases e1 : w = nl
+      · subst e1; rw [watches_move_new hne, hci]; simp [hic]
+      · by_cases e2 : w = l.neg
+        · subst e2; rw [watches_move_old hne hnd hlt, hci]; simp [hic]
+        · rw [watches_move_other e1 e2]
+  · -- only
+    intro i w hw
+    rcases mem_moveWatch hlt hw with h | ⟨h, _, _⟩
+    · exact h2.only i w h
+    · rw [h, hci]; exact F1
+
+/-- the repaired loop keeps the two-watch structure on normal CNFs, whatever its outcome -/
+theorem LoopRel.twoWatch {cnf wl m l idx wl' r} (h : LoopRel cnf true wl m l idx wl' r)
+    (hN : CnfNormal cnf) : m l.var = some l.pol → TwoWatch cnf wl → TwoWatch cnf wl' := by
+  induction h with
+  | done _ => intro _ h; exact h
+  | skip _ _ _ ih => exact ih
+  | conflict _ _ _ => intro _ h; exact h
+  | unitConflict _ _ _ _ ih => intro _ h2; exact ih (pset_same _ _ _) h2
+  | unitOk _ _ hf h1 _ ih1 ih2 =>
+    intro hl h2
+    have hext := (PExt.set _ (mem_filter_unset hf)).trans (h1.ext _ rfl)
+    exact ih2 (hext _ _ hl) (ih1 (pset_same _ _ _) h2)
+  | move hlt _ hf _ ih => intro hl h2; exact ih hl (h2.move hN hl hlt hf)
+
+theorem DecideRel.twoWatch {cnf wl m l wl' r} (h : DecideRel cnf true wl m l wl' r)
+    (hN : CnfNormal cnf) (h2 : TwoWatch cnf wl) : TwoWatch cnf wl' := by
+  cases h with
+  | same _ => exact h2
+  | clash _ => exact h2
+  | fresh _ h => exact h.twoWatch hN (pset_same _ _ _) h2
+
+/-! ## the initial watch lists -/
+
+theorem watches_push {wl : WL} {l : Lit} {ci i : Nat} {w : Lit} :
+    Watches (wl.push l ci) i w ↔ Watches wl i w ∨ (i = ci ∧ w = l) := by
+  unfold Watches
+  rw [WL.get_push]
+  split
+  · next e =>
+    rw [List.mem_append]
+    have : w = l := lit_ext e.1 e.2
+    simp [this]
+  · next e =>
+    constructor
+    · exact .inl
+    · rintro (h | ⟨_, h⟩)
+      · exact h
+      · exact absurd ⟨by rw [h], by rw [h]⟩ e
+
+/-- the two-watch structure restricted to the clauses with index `< n` -/
+structure TwoWatchUpTo (cnf : Cnf) (n : Nat) (wl : WL) : Prop where
+  nodup : ∀ p v, (wl.get p v).Nodup
+  two : ∀ i, i < n → i < cnf.length → 2 ≤ (cnf.getD i []).length →
+    ∃ w1 w2, w1 ≠ w2 ∧ w1 ∈ cnf.getD i [] ∧ w2 ∈ cnf.getD i [] ∧
+      ∀ w, Watches wl i w ↔ (w = w1 ∨ w = w2)
+  only : ∀ i w, Watches wl i w → i < n ∧ i < cnf.length ∧ 2 ≤ (cnf.getD i []).length
+
+theorem nodup_push {wl : WL} {l : Lit} {ci : Nat} (h : ∀ p v, (wl.get p v).Nodup)
+    (hn : ¬ Watches wl ci l) : ∀ p v, ((wl.push l ci).get p v).Nodup := by
+  intro p v
+  rw [WL.get_push]
+  split
+  · next e =>
+    rw [List.nodup_append]
+    refine ⟨h p v, by simp, ?_⟩
+    intro a ha b hb
+    have : b = ci := by simpa using hb
+    subst this
+    intro e2; subst e2
+    rw [e.1, e.2] at ha
+    exact hn ha
+  · exact h p v
+
+theorem initWatches_two (cnf : Cnf) (hN : CnfNormal cnf) : ∀ (cs : List Clause) (i : Nat) (wl : WL),
+    cnf.drop i = cs → TwoWatchUpTo cnf i wl → TwoWatchUpTo cnf cnf.length (initWatches cs i wl)
+  | [], i, wl, hd, h => by
+    have hlen : cnf.length ≤ i := by
+      have := congrArg List.length hd; simp at this; omega
+    unfold initWatches
+    exact ⟨h.nodup, fun j _ hj => h.two j (by omega) hj, fun j w hw => by
+      have := h.only j w hw; exact ⟨this.2.1, this.2⟩⟩
+  | c :: cs, i, wl, hd, h => by
+    have hi : i < cnf.length := by
+      have := congrArg List.length hd; simp at this; omega
+    have hci : cnf.getD i [] = c := by
+      have : (cnf.drop i)[0]? = some c := by rw [hd]; simp
+      rw [List.getElem?_drop] at this
+      rw [List.getD_eq_getElem?_getD]; simp at this; rw [this]; rfl
+    have hd' : cnf.drop (i + 1) = cs := by
+      have := congrArg (List.drop 1) hd
+      simpa [List.drop_drop, Nat.add_comm] using this
+    have hstep : ∀ wl', TwoWatchUpTo cnf (i + 1) wl' →
+        TwoWatchUpTo cnf cnf.length (initWatches cs (i + 1) wl') :=
+      fun wl' h' => initWatches_two cnf hN cs (i + 1) wl' hd' h'
+    have hshort : (cnf.getD i []).length < 2 → TwoWatchUpTo cnf (i + 1) wl := by
+      intro hl
+      refine ⟨h.nodup, ?_, fun j w hw => by have := h.only j w hw; exact ⟨by omega, this.2⟩⟩
+      intro j hj hjl h2
+      by_cases e : j = i
+      · subst e; omega
+      · exact h.two j (by omega) hjl h2
+    match c, hci with
+    | [], hci => unfold initWatches; exact hstep _ (hshort (by rw [hci]; simp))
+    | [a], hci => unfold initWatches; exact hstep _ (hshort (by rw [hci]; simp))
+    | a :: b :: t, hci =>
+      unfold initWatches
+      apply hstep
+      have hnorm : NormalClause (a :: b :: t) := hN _ (by
+        rw [← hci, List.getD_eq_getElem?_getD, List.getElem?_eq_getElem hi]; exact List.getElem_mem hi)
+      have hab : a ≠ b := hnorm.2.1
+      have hnw : ∀ w, ¬ Watches wl i w := fun w hw => by have := (h.only i w hw).1; omega
+      have hnd1 := nodup_push (l := b) (ci := i) h.nodup (hnw b)
+      have hnw2 : ¬ Watches (wl.push b i) i a := by
+        rw [watches_push]; rintro (h1 | ⟨_, h1⟩)
+        · exact hnw a h1
+        · exact hab h1
+      refine ⟨nodup_push hnd1 hnw2, ?_, ?_⟩
+      · intro j hj hjl h2
+        by_cases e : j = i
+        · subst e
+          refine ⟨b, a, fun e => hab e.symm, by rw [hci]; simp, by rw [hci]; simp, ?_⟩
+          intro w
+          rw [watches_push, watches_push]
+          constructor
+          · rintro ((h1 | ⟨_, h1⟩) | ⟨_, h1⟩)
+            · exact absurd h1 (hnw w)
+            · exact .inl h1
+            · exact .inr h1
+          · rintro (h1 | h1)
+            · exact .inl (.inr ⟨rfl, h1⟩)
+            · exact .inr ⟨rfl, h1⟩
+        · obtain ⟨u1, u2, hu, hu1, hu2, hiff⟩ := h.two j (by omega) hjl h2
+          refine ⟨u1, u2, hu, hu1, hu2, ?_⟩
+          intro w
+          rw [watches_push, watches_push, ← hiff w]
+          simp [e]
+      · intro j w hw
+        rw [watches_push, watches_push] at hw
+        rcases hw with (h1 | ⟨h1, _⟩) | ⟨h1, _⟩
+        · have := h.only j w h1; exact ⟨by omega, this.2⟩
+        · subst h1; exact ⟨by omega, hi, by rw [hci]; simp⟩
+        · subst h1; exact ⟨by omega, hi, by rw [hci]; simp⟩
+
+theorem initWatches_twoWatch (cnf : Cnf) (hN : CnfNormal cnf) :
+    TwoWatch cnf (initWatches cnf 0 WL.empty) := by
+  have h0 : TwoWatchUpTo cnf 0 WL.empty :=
+    ⟨by intro p v; simp, fun i hi => by omega, fun i w hw => by simp [Watches] at hw⟩
+  have := initWatches_two cnf hN cnf 0 WL.empty (by simp) h0
+  exact ⟨this.nodup, fun i hi h2 => this.two i hi hi h2, fun i w hw => (this.only i w hw).2⟩
+
+/-- validity of the initial watch lists needs no normal form -/
+theorem initWatches_valid (cnf : Cnf) : ∀ (cs : List Clause) (i : Nat) (wl : WL),
+    i + cs.length = cnf.length → WatchValid cnf wl → WatchValid cnf (initWatches cs i wl)
+  | [], _, wl, _, h => by unfold initWatches; exact h
+  | c :: cs, i, wl, hl, h => by
+    have hl' : i + 1 + cs.length = cnf.length := by simp at hl; omega
+    have hpush : ∀ (wl : WL) (l : Lit), WatchValid cnf wl → WatchValid cnf (wl.push l i) := by
+      intro wl l hv p v j hj
+      have : Watches (wl.push l i) j ⟨v, p⟩ := hj
+      rw [watches_push] at this
+      rcases this with h1 | ⟨h1, _⟩
+      · exact hv p v j h1
+      · subst h1; simp at hl; omega
+    match c with
+    | [] => unfold initWatches; exact initWatches_valid cnf cs (i + 1) wl hl' h
+    | [a] => unfold initWatches; exact initWatches_valid cnf cs (i + 1) wl hl' h
+    | a :: b :: t =>
+      unfold initWatches
+      exact initWatches_valid cnf cs (i + 1) _ hl' (hpush _ _ (hpush _ _ h))
+
+theorem watchValid_empty (cnf : Cnf) : WatchValid cnf WL.empty := by
+  intro p v i h; simp at h
+
+theorem watchOK_empty (cnf : Cnf) (wl : WL) : WatchOK cnf wl PModel.empty := by
+  intro i w _ _ hf; simp [litFalse, PModel.empty] at hf
+
+/-! ## the `for i in implied` loop of `UnitPropagate::new` -/
+
+inductive DecideAllRel (cnf : Cnf) (rep : Bool) : List Lit → WL → PModel → WL → Option PModel → Prop
+  | nil {wl m} : DecideAllRel cnf rep [] wl m wl (some m)
+  | conflict {u us wl m wl'} : DecideRel cnf rep wl m u wl' none →
+      DecideAllRel cnf rep (u :: us) wl m wl' none
+  | cons {u us wl m wl1 m1 wl' r} : DecideRel cnf rep wl m u wl1 (some m1) →
+      DecideAllRel cnf rep us wl1 m1 wl' r → DecideAllRel cnf rep (u :: us) wl m wl' r
+
+theorem decideAll_rel {cnf : Cnf} {rep : Bool} {fuel : Nat} : ∀ {us wl m out},
+    decideAll (decideK (loop cnf rep fuel)) us wl m = some out →
+    DecideAllRel cnf rep us wl m out.1 out.2
+  | [], wl, m, out, h => by simp [decideAll] at h; subst h; exact .nil
+  | u :: us, wl, m, out, h => by
+    unfold decideAll at h
+    split at h
+    · cases h
+    · next wl' hd => cases h; exact .conflict (decide_rel hd)
+    · next wl' m' hd => exact .cons (decide_rel hd) (decideAll_rel h)
+
+theorem DecideAllRel.valid {cnf rep us wl m wl' r} (h : DecideAllRel cnf rep us wl m wl' r)
+    (hv : WatchValid cnf wl) : WatchValid cnf wl' := by
+  induction h with
+  | nil => exact hv
+  | conflict h => exact h.valid hv
+  | cons h _ ih => exact ih (h.valid hv)
+
+theorem DecideAllRel.ext {cnf rep us wl m wl' m'} (h : DecideAllRel cnf rep us wl m wl' (some m')) :
+    PExt m m' ∧ ∀ u, u ∈ us → m' u.var = some u.pol := by
+  generalize hr : some m' = r at h
+  induction h with
+  | nil => cases hr; exact ⟨PExt.refl _, by simp⟩
+  | conflict _ => cases hr
+  | cons h1 _ ih =>
+    obtain ⟨e1, e2⟩ := ih hr
+    refine ⟨h1.ext.1.trans e1, ?_⟩
+    intro u hu
+    rcases List.mem_cons.mp hu with e | hu
+    · subst e; exact e1 _ _ h1.ext.2
+    · exact e2 u hu
+
+theorem DecideAllRel.sound {cnf rep us wl m wl' r} (h : DecideAllRel cnf rep us wl m wl' r)
+    (hv : WatchValid cnf wl) (a : Assign) (ha : cnfSat a cnf = true) (he : Extends a m)
+    (hus : ∀ u, u ∈ us → litSat a u = true) : ∃ m', r = some m' ∧ Extends a m' := by
+  induction h with
+  | nil => exact ⟨_, rfl, he⟩
+  | conflict h =>
+    obtain ⟨_, e, _⟩ := h.sound hv a ha he (hus _ (by simp)); cases e
+  | cons h _ ih =>
+    obtain ⟨_, e, he1⟩ := h.sound hv a ha he (hus _ (by simp))
+    cases e
+    exact ih (h.valid hv) he1 (fun u hu => hus u (by simp [hu]))
+
+theorem DecideAllRel.watchOK {cnf rep us wl m wl' m'} (h : DecideAllRel cnf rep us wl m wl' (some m'))
+    (hok : WatchOK cnf wl m) : WatchOK cnf wl' m' := by
+  generalize hr : some m' = r at h
+  induction h with
+  | nil => cases hr; exact hok
+  | conflict _ => cases hr
+  | cons h1 _ ih => exact ih (h1.watchOK _ hok) hr
+
+theorem DecideAllRel.twoWatch {cnf us wl m wl' r} (h : DecideAllRel cnf true us wl m wl' r)
+    (hN : CnfNormal cnf) (h2 : TwoWatch cnf wl) : TwoWatch cnf wl' := by
+  induction h with
+  | nil => exact h2
+  | conflict h => exact h.twoWatch hN h2
+  | cons h _ ih => exact ih (h.twoWatch hN h2)
+
+theorem mem_impliedUnits {cnf : Cnf} {u : Lit} : u ∈ impliedUnits cnf ↔ [u] ∈ cnf := by
+  induction cnf with
+  | nil => simp [impliedUnits]
+  | cons c cs ih =>
+    match c with
+    | [] => unfold impliedUnits; simp [ih]
+    | [a] => unfold impliedUnits; simp [ih]
+    | a :: b :: t => unfold impliedUnits; simp [ih]
+
+/-! ## the fixpoint property from the invariants -/
+
+instance : LawfulBEq Lit where
+  eq_of_beq {a b} h := by
+    cases a; cases b
+    simp only [BEq.beq] at h
+    simpa [instBEqLit.beq] using h
+  rfl {a} := by
+    cases a
+    simp [BEq.beq, instBEqLit.beq]
+
+/-- unit clauses have their literal true -/
+def UnitsTrue (cnf : Cnf) (m : PModel) : Prop := ∀ u, [u] ∈ cnf → litTrue m u = true
+
+/-- **Fixpoint from the watch invariants.** -/
+theorem fixpoint_of_watch {cnf : Cnf} {wl : WL} {m : PModel}
+    (h2 : TwoWatch cnf wl) (hok : WatchOK cnf wl m) (hu : UnitsTrue cnf m)
+    (hne : cnf.any List.isEmpty = false) :
+    ∀ c, c ∈ cnf → clauseFalsified m c = false ∧ clauseUnit m c = false := by
+  intro c hc
+  obtain ⟨i, hi, rfl⟩ := List.mem_iff_getElem.mp hc
+  have hget : cnf.getD i [] = cnf[i] := by
+    rw [List.getD_eq_getElem?_getD, List.getElem?_eq_getElem hi]; rfl
+  have hnotfalse : ∀ l, l ∈ cnf[i] → litTrue m l = true → clauseFalsified m cnf[i] = false := by
+    intro l hl ht
+    cases hcf : clauseFalsified m cnf[i] with
+    | false => rfl
+    | true =>
+      unfold clauseFalsified at hcf
+      have := List.all_eq_true.mp hcf l hl
+      rw [litTrue_iff] at ht; rw [litFalse_iff, ht] at this
+      cases hp : l.pol <;> simp [hp] at this
+  match hcl : cnf[i] with
+  | [] =>
+    have : cnf.any List.isEmpty = true := List.any_eq_true.mpr ⟨cnf[i], hc, by rw [hcl]; rfl⟩
+    rw [hne] at this; cases this
+  | [u] =>
+    have ht : litTrue m u = true := hu u (hcl ▸ hc)
+    refine ⟨hcl ▸ hnotfalse u (by rw [hcl]; simp) ht, ?_⟩
+    simp [clauseUnit, ht]
+  | a :: b :: t =>
+    obtain ⟨w1, w2, hw12, hw1, hw2, hiff⟩ := h2.two i hi (by rw [hget, hcl]; simp)
+    rw [hget, hcl] at hw1 hw2
+    have hW1 : Watches wl i w1 := (hiff w1).mpr (.inl rfl)
+    have hW2 : Watches wl i w2 := (hiff w2).mpr (.inr rfl)
+    have hsat1 : litFalse m w1 = true → (a :: b :: t).any (litTrue m) = true := by
+      intro h; have := hok i w1 hW1 (fun h => h) h; rwa [hget, hcl] at this
+    have hsat2 : litFalse m w2 = true → (a :: b :: t).any (litTrue m) = true := by
+      intro h; have := hok i w2 hW2 (fun h => h) h; rwa [hget, hcl] at this
+    constructor
+    · cases hcf : clauseFalsified m (a :: b :: t) with
+      | false => rfl
+      | true =>
+        have hall := List.all_eq_true.mp hcf
+        obtain ⟨l, hl, ht⟩ := List.any_eq_true.mp (hsat1 (hall w1 hw1))
+        have := hnotfalse l (hcl ▸ hl) ht
+        rw [hcl] at this
+        rw [this] at hcf; cases hcf
+    · cases hcu : clauseUnit m (a :: b :: t) with
+      | false => rfl
+      | true =>
+        unfold clauseUnit at hcu
+        simp only [Bool.and_eq_true, Bool.not_eq_true', beq_iff_eq] at hcu
+        obtain ⟨hnt, hlen⟩ := hcu
+        have hunset : ∀ w, w ∈ a :: b :: t → (litFalse m w = true → (a :: b :: t).any (litTrue m) = true) →
+            w ∈ ((a :: b :: t).filter (litUnset m)).eraseDups := by
+          intro w hw hs
+          rw [List.mem_eraseDups, List.mem_filter]
+          refine ⟨hw, ?_⟩
+          rcases lit_cases m w with h | h | h
+          · have : (a :: b :: t).any (litTrue m) = true := List.any_eq_true.mpr ⟨w, hw, h⟩
+            rw [hnt] at this; cases this
+          · rw [hs h] at hnt; cases hnt
+          · exact h
+        have h1 := hunset w1 hw1 hsat1
+        have h2' := hunset w2 hw2 hsat2
+        match hed : ((a :: b :: t).filter (litUnset m)).eraseDups, hlen with
+        | [x], _ =>
+          rw [hed] at h1 h2'
+          simp at h1 h2'
+          exact absurd (h1.trans h2'.symm) hw12
+
 end UnitProp
